@@ -36,10 +36,6 @@ Full statement / proved / missing
 -/
 namespace Pcore.LoaderSeq
 
-def ansOf : Option V → Ans
-  | some v => .found v
-  | none => .notfound
-
 /-- `px.Load` answers the binding of the outermost ancestor that has one, otherwise the loader's own, otherwise not-found -/
 theorem C12_load (s : Sys) (l : Nat) (n : Name) (ha : n.auth = runtimeAuthority) :
     (step s (.load l n)).2 = ansOf (resolve s l (canon n)) := by
